@@ -3,7 +3,7 @@ SPEC_PART = dict(
     legs=[dict(family="freq", focus="size", oracles=["prop_layout"], profiles=["debug"], n_quick=10, n_thorough=24,
                panic_is_violation=True)],
     trusted=[],
-    assumptions=[],
+    assumptions=["Frequent Items: no probe run of the hash map is longer than the drift limit (1024 occupied slots in debug builds: debug_assert; 65535 in release builds: the u16 drift wraps beyond and lookups go wrong) - needs items chosen for their hashes; known findings C17-freq-drift-limit / C14-freq-drift-limit"],
     covers="freq: active items <= current capacity <= maximum_map_capacity after every operation of every history (C07's capacity "
            "theorem); image size = 8 | 32 + 16 * active <= 32 + 16 * maximum_map_capacity. Tie: num_active_items and serialize().len() of "
            "the crate after every power-of-two prefix of growing streams (distinct, repeated, sorted, hash-clustered), map sizes 8..2048.",
